@@ -1204,6 +1204,16 @@ async def lock_times_out(ctx: Ctx, cfg: str, first: bytes, second: bytes) \
             return
         r = task.result()
         ctx.count('selects_under_held_lock')
+        if second == b'LOGOUT':
+            # LOGOUT needs nothing from the store: BYE then OK, always
+            bye = any(u.cond == b'BYE' for u in r.untagged)
+            if _cond(r) != 'OK' or not bye:
+                ctx.report('logout-refused:lock-held',
+                           '%s; LOGOUT while the uidlist lock of the selected '
+                           'mailbox is held [%s]: %r' % (
+                               first.decode(), cfg, r.tagged.raw[:80]
+                               if r.tagged else None))
+            return
         if _cond(r) != 'REFUSED':
             return          # the lock did not matter for this command
         r2 = await send(a, b'FETCH 1 (FLAGS)')
@@ -1421,6 +1431,9 @@ class C05(Check):
             for second in ('SELECT BoxB', 'EXAMINE BoxB'):
                 out.append({'kind': 'lock', 'config': 'maildir',
                             'first': first, 'second': second})
+        for first in ('SELECT BoxB', 'EXAMINE BoxB'):
+            out.append({'kind': 'lock', 'config': 'maildir', 'first': first,
+                        'second': 'LOGOUT'})
         # the selected mailbox disappears under the connection
         prng = random.Random(seed * 31 + 55)
         for cfg in (['dict', 'maildir'] if quick else list(CONFIGS)):
